@@ -9,10 +9,10 @@ package okex
 //@   modifies Store
 //@   requires native != nil && native.tx != nil
 //@   ghost var wit bool = false
-//@   ghost var op [20]byte
-//@   set after "operatorAddress, err := node_manager.GetCurConOperator(native)" : op := operatorAddress
+//@   ghost var gop [20]byte
+//@   set after "operatorAddress, err := node_manager.GetCurConOperator(native)" : gop := operatorAddress
 //@   set after "err = utils.ValidateOwner(native, operatorAddress)" : wit := err == nil
 //@   -- the address that must witness is the consensus operator just derived from the current validators
-//@   callsite[c18-operator] ValidateOwner#1 requires arg1 == op
+//@   callsite[c18-operator] ValidateOwner#1 requires arg1 == gop
 //@   -- installing a trust root changes storage only with the operator's witness
 //@   ensures[c18-witness] Store != old(Store) ==> wit
